@@ -733,3 +733,23 @@ mod tests {
             0x5A, 0xA4, 0x00, 0x00]
   });
 }
+
+// ---------------------------------------------------------------
+// verification hook (add-only): raw access to the parts of a NumberSet
+#[cfg(rustdds_verif)]
+impl<N> NumberSet<N>
+where
+  N: Clone + Debug + Hash + PartialEq + Eq + NumOps + From<i64>,
+{
+  pub(crate) fn verif_from_parts(bitmap_base: N, num_bits: u32, bitmap: Vec<u32>) -> Self {
+    Self {
+      bitmap_base,
+      num_bits,
+      bitmap,
+    }
+  }
+
+  pub(crate) fn verif_parts(&self) -> (N, u32, Vec<u32>) {
+    (self.bitmap_base.clone(), self.num_bits, self.bitmap.clone())
+  }
+}
